@@ -1,16 +1,29 @@
-(* Model of access histories (property C18): caller-owned dictionaries that the library
-   edits in place + per-object lazy caches (src/cr/cube/util.py lazyproperty).
+(* Model of access histories (property C18): caller-owned argument objects (transforms dicts,
+   responses) shared by several cubes + per-object lazy caches (src/cr/cube/util.py lazyproperty).
+
+   REPAIRED code (commits 51c19c01, 3e9f35f8, 502c5e20, 537d2a70): the library no longer edits the
+   caller's transforms dicts nor the caller's responses.  The translation of a dimension's
+   transforms (shimmed_dimension_transforms_dict), Cube.inflate and Cube.augment_response each build
+   an object of their OWN that shares what they do not change.  The one in-place edit that stays is
+   the annotation of the response's dimension dicts with "subvar_alias" / "datetime_value" keys
+   (Model/Shim.v shim_dim_dict): it is idempotent and no result depends on whether it was made.
+
+   The state of the model still carries the caller-owned objects, so that "they are the pristine
+   ones after ANY history" is a theorem about the model (Proofs/HistoryProofs.v dicts_unchanged,
+   Proofs/HistoryArray.v rrun_state_unchanged, Proofs/HistorySets.v a_run_state_unchanged) which
+   harness/props/c18.py checks on the implementation by deep equality with pristine copies.
 
    Part 1 (generic): objects (a Dimension built by Dimension.apply_transforms for a partition,
-   src/cr/cube/cubepart.py::_dimensions) share caller-owned transforms dicts.  The first read
-   of an object that is not yet "shimmed" runs the shim on the CURRENT content of the caller's
-   dict and writes the result back into it (the explicit in-place edit step [do_shim]); the
-   value of a property is computed from the current content of that dict and cached on the
-   object unless it is None ([cacheable]); an exception caches nothing but leaves the dict
-   half-edited (the shim returns the content it leaves behind).
+   src/cr/cube/cubepart.py::_dimensions) reference caller-owned transforms dicts.  The first read of
+   an object translates the content of the caller's dict into a dict of the object's own
+   (lazyproperty Dimension._dimension_transforms_dict, cached on the object: [o_shim]); the value of
+   a property is computed from that dict and cached on the object unless it is None ([cacheable]);
+   an exception caches nothing and changes nothing.
 
-   Part 2: responses edited in place by CubeSet inflation (src/cr/cube/cube.py::Cube.inflate)
-   and the three ways of passing a response (JSON text, dict, {"value": ...} envelope).
+   Part 2: CubeSet inflation (src/cr/cube/cube.py::Cube.inflate) and the three ways of passing a
+   response (JSON text, dict, {"value": ...} envelope).
+
+   Part 3: Cube.augment_response.
 
    Executable; definitions only (proofs: Proofs/History*.v). *)
 From Coq Require Import ZArith List Bool Lia Arith String.
@@ -20,19 +33,20 @@ Local Open Scope nat_scope.
 
 Section Generic.
   Variables D X P V : Type.
-  Variable shim : D -> X -> X * option exn.      (* in-place rewrite: content left behind, exception *)
-  Variable cons : D -> X -> P -> V.              (* value of property p computed from the dict *)
+  (* the translation: the dict the dimension uses (an object of its own), exception if any *)
+  Variable shim : D -> X -> X * option exn.
+  Variable cons : D -> X -> P -> V.              (* value of property p computed from that dict *)
   Variable P_eqb : P -> P -> bool.
   Variable cacheable : V -> bool.                (* lazyproperty never caches None *)
 
   Record obj : Type := mk_obj {
     o_dim : D;                 (* the dimension it was built for *)
     o_dict : nat;              (* which caller-owned dict it references *)
-    o_shimmed : bool;          (* _dimension_transforms_dict already evaluated (cached) *)
+    o_shim : option X;         (* _dimension_transforms_dict once evaluated (cached on the object) *)
     o_cache : list (P * V) }.  (* instance __dict__ *)
 
   Record state : Type := mk_state {
-    s_dicts : nat -> X;        (* current content of the caller-owned dicts *)
+    s_dicts : nat -> X;        (* content of the caller-owned dicts (no step writes it) *)
     s_objs : list obj }.
 
   Inductive op : Type :=
@@ -45,9 +59,6 @@ Section Generic.
     | (q, v) :: t => if P_eqb p q then Some v else assoc p t
     end.
 
-  Definition set_dict (f : nat -> X) (i : nat) (x : X) : nat -> X :=
-    fun j => if Nat.eqb j i then x else f j.
-
   Fixpoint set_nth {A} (n : nat) (a : A) (l : list A) : list A :=
     match l, n with
     | [], _ => []
@@ -55,16 +66,17 @@ Section Generic.
     | b :: t, S m => b :: set_nth m a t
     end.
 
-  (* the explicit in-place edit: shim the CURRENT content of the caller's dict *)
-  Definition do_shim (s : state) (o : nat) (ob : obj) : state * obj * option exn :=
-    if o_shimmed ob then (s, ob, None)
-    else
-      let '(t', e) := shim (o_dim ob) (s_dicts s (o_dict ob)) in
-      let ob' := match e with
-                 | None => mk_obj (o_dim ob) (o_dict ob) true (o_cache ob)
-                 | Some _ => ob
-                 end in
-      (mk_state (set_dict (s_dicts s) (o_dict ob) t') (set_nth o ob' (s_objs s)), ob', e).
+  (* Dimension._dimension_transforms_dict: translate the caller's dict into a dict of the object's
+     own, once; the caller's dict is only read *)
+  Definition get_shim (s : state) (ob : obj) : obj * res X :=
+    match o_shim ob with
+    | Some t' => (ob, Ok t')
+    | None =>
+      match shim (o_dim ob) (s_dicts s (o_dict ob)) with
+      | (t', None) => (mk_obj (o_dim ob) (o_dict ob) (Some t') (o_cache ob), Ok t')
+      | (_, Some ex) => (ob, Raise ex)
+      end
+    end.
 
   Definition read (s : state) (o : nat) (p : P) : state * res V :=
     match nth_error (s_objs s) o with
@@ -73,15 +85,14 @@ Section Generic.
       match assoc p (o_cache ob) with
       | Some v => (s, Ok v)
       | None =>
-        let '(s1, ob1, e) := do_shim s o ob in
-        match e with
-        | Some ex => (s1, Raise ex)
-        | None =>
-          let v := cons (o_dim ob1) (s_dicts s1 (o_dict ob1)) p in
+        match get_shim s ob with
+        | (_, Raise ex) => (s, Raise ex)
+        | (ob1, Ok t') =>
+          let v := cons (o_dim ob1) t' p in
           let ob2 := if cacheable v
-                     then mk_obj (o_dim ob1) (o_dict ob1) (o_shimmed ob1) ((p, v) :: o_cache ob1)
+                     then mk_obj (o_dim ob1) (o_dict ob1) (o_shim ob1) ((p, v) :: o_cache ob1)
                      else ob1 in
-          (mk_state (s_dicts s1) (set_nth o ob2 (s_objs s1)), Ok v)
+          (mk_state (s_dicts s) (set_nth o ob2 (s_objs s)), Ok v)
         end
       end
     end.
@@ -89,11 +100,12 @@ Section Generic.
   Definition step (sr : state * list (res V)) (x : op) : state * list (res V) :=
     let (s, rs) := sr in
     match x with
-    | New d i => (mk_state (s_dicts s) (s_objs s ++ [mk_obj d i false []]), rs)
+    | New d i => (mk_state (s_dicts s) (s_objs s ++ [mk_obj d i None []]), rs)
     | Read o p => let (s', r) := read s o p in (s', rs ++ [r])
     end.
 
   Definition init (ts : nat -> X) : state := mk_state ts [].
+  Definition final (ts : nat -> X) (ops : list op) : state := fst (fold_left step ops (init ts, [])).
   (* all read results of a history, in order *)
   Definition run (ts : nat -> X) (ops : list op) : list (res V) :=
     snd (fold_left step ops (init ts, [])).
@@ -119,8 +131,8 @@ Section Generic.
     snd (fold_left (pstep ts) ops ([], [])).
 End Generic.
 
-Arguments mk_obj {D P V}.
-Arguments o_dim {D P V}. Arguments o_dict {D P V}. Arguments o_shimmed {D P V}. Arguments o_cache {D P V}.
+Arguments mk_obj {D X P V}.
+Arguments o_dim {D X P V}. Arguments o_dict {D X P V}. Arguments o_shim {D X P V}. Arguments o_cache {D X P V}.
 Arguments s_dicts {D X P V}. Arguments s_objs {D X P V}.
 Arguments mk_state {D X P V}.
 Arguments New {D P}.
@@ -146,10 +158,13 @@ Definition acons (d : adim) (t : xf) (p : aprop) : aval :=
   end.
 Definition arun := run adim xf aprop aval shim_xf acons aprop_eqb (fun _ => true).
 Definition arun_pristine := run_pristine adim xf aprop aval shim_xf acons.
+Definition afinal := final adim xf aprop aval shim_xf acons aprop_eqb (fun _ => true).
 (* content of the caller's dict i after the history *)
 Definition arun_dict (ts : nat -> xf) (ops : list (op adim aprop)) (i : nat) : xf :=
-  s_dicts (fst (fold_left (step adim xf aprop aval shim_xf acons aprop_eqb (fun _ => true)) ops
-                          (init adim xf aprop aval ts, []))) i.
+  s_dicts (afinal ts ops) i.
+(* the translated dict every object holds after the history (None = never evaluated / raised) *)
+Definition arun_shims (ts : nat -> xf) (ops : list (op adim aprop)) : list (option xf) :=
+  map o_shim (s_objs (afinal ts ops)).
 
 (* ---- Part 2: responses ------------------------------------------------------------------- *)
 (* what matters of a cube response for partitioning: its number of (apparent) dimensions.
@@ -162,22 +177,23 @@ Inductive rop : Type :=
 | MkCube (i : nat)              (* Cube(responses[i]).partitions[0] *)
 | MkSet (l : list nat).         (* CubeSet([responses[i] for i in l], ...).partition_sets *)
 
-(* CubeSet._cubes: when there are >= 2 responses and the first one is 0-D every cube is inflated:
-   Cube.inflate inserts a rows dimension into the CALLER's response (dims.insert(0, ...)) *)
+(* CubeSet._cubes: when there are >= 2 responses and the first one is 0-D every cube is inflated.
+   Cube.inflate returns a cube on a response OF ITS OWN, dict(response, result=dict(result,
+   dimensions=[rows_dimension] + dims)): one more dimension; the caller's response is only read *)
 Definition is_numeric_set (r : nat -> nat) (l : list nat) : bool :=
   match l with
   | i :: _ :: _ => Nat.eqb (r i) 0
   | _ => false
   end.
-Definition inflate_all (r : nat -> nat) (l : list nat) : nat -> nat :=
-  fold_left (fun f i => fun j => if Nat.eqb j i then S (f j) else f j) l r.
+Definition set_kinds (r : nat -> nat) (l : list nat) : list pkind :=
+  if is_numeric_set r l then map (fun i => kind_of (S (r i))) l else map (fun i => kind_of (r i)) l.
+(* the state (number of dimension dicts of every caller-owned response) is threaded through and
+   never written *)
 Definition rstep (sr : (nat -> nat) * list (list pkind)) (x : rop) : (nat -> nat) * list (list pkind) :=
   let (r, out) := sr in
   match x with
   | MkCube i => (r, out ++ [[kind_of (r i)]])
-  | MkSet l =>
-    let r' := if is_numeric_set r l then inflate_all r l else r in
-    (r', out ++ [map (fun i => kind_of (r' i)) l])
+  | MkSet l => (r, out ++ [set_kinds r l])
   end.
 Definition rrun (r0 : nat -> nat) (ops : list rop) : list (list pkind) :=
   snd (fold_left rstep ops (r0, [])).
@@ -199,19 +215,24 @@ Arguments ArgDict {R}. Arguments ArgText {R}.
 Definition cube_response {R} (a : rarg R) : rjson R :=
   let j := match a with ArgDict j => j | ArgText j => j end in
   match j with JEnvelope v => v | JResp _ => j end.
+(* CubeSet._cubes (repaired, 537d2a70): the summary response the filter cubes are augmented
+   against is the PARSED response of the first cube, cube._cube_response - no longer the raw first
+   argument *)
+Definition set_summary {R} (args : list (rarg R)) : option (rjson R) :=
+  match args with a :: _ => Some (cube_response a) | [] => None end.
 
 (* number of dimension dicts of every caller-owned response after the history *)
 Definition rrun_state (r0 : nat -> nat) (ops : list rop) : nat -> nat :=
   fst (fold_left rstep ops (r0, [])).
 (* the responses an operation is given *)
 Definition touches (x : rop) : list nat := match x with MkCube i => [i] | MkSet l => l end.
-(* the operation is a numeric-measure CubeSet on PRISTINE responses *)
+(* the operation is a numeric-measure CubeSet *)
 Definition numeric0 (r0 : nat -> nat) (x : rop) : bool :=
   match x with MkSet l => is_numeric_set r0 l | MkCube _ => false end.
 
 (* ---- Part 3: Cube.augment_response (single-filter-column cubes of a multi-cube set) ------------ *)
-(* what augment_response reads and rewrites IN the caller's response: result.counts (=
-   measures.count.data afterwards) and the (id, value) pairs of the elements of dimension 0;
+(* what augment_response reads of the filter response and of the summary response: result.counts
+   and the (id, value) pairs of the elements of dimension 0;
    value None = a JSON object ({"?": -1}, the missing element): isinstance(value, (int, str))
    fails and `value in values` is False *)
 Record aresp : Type := mk_aresp { a_counts : list Z; a_elems : list (ident * option ident) }.
@@ -241,7 +262,9 @@ Fixpoint a_fill (data : list Z) (pv : list (ident * Z)) : option (list Z) :=
                    | None => None
                    end
   end.
-(* augment_response of filter cube f against the summary cube s: the new content of f *)
+(* augment_response of filter cube f against the summary cube s: the response of the cube it
+   RETURNS (f itself when nothing has to be padded); None = data[pos] = value raised (IndexError /
+   TypeError) - the caller's responses are only read, so a raise leaves nothing behind *)
 Definition augment (f s : aresp) : option aresp :=
   if Nat.eqb (List.length (a_counts f)) (List.length (a_counts s)) then Some f
   else
@@ -251,27 +274,21 @@ Definition augment (f s : aresp) : option aresp :=
     | None => None
     end.
 
-(* the content of the caller's filter response afterwards: the elements are replaced BEFORE the
-   counts are computed, so an IndexError / TypeError of data[pos] = value leaves the response with
-   the summary's elements and its own counts *)
-Definition augment_left (f s : aresp) : aresp :=
-  match augment f s with
-  | Some f' => f'
-  | None => mk_aresp (a_counts f) (a_elems s)
-  end.
-
 (* a tabbook-like history over one summary response s and one filter response f (caller-owned):
-   ASet = CubeSet([s, f]) reads the counts of its second cube, ACube = Cube(f) alone *)
+   ASet = CubeSet([s, f]) reads the counts of its second cube, ACube = Cube(f) alone.  The state
+   (the caller's filter response) is threaded through and never written *)
 Inductive aop : Type := ASet | ACube.
 Definition astep (s : aresp) (st : aresp * list (option (list Z))) (x : aop)
   : aresp * list (option (list Z)) :=
   let (f, out) := st in
   match x with
   | ACube => (f, out ++ [Some (a_counts f)])
-  | ASet => (augment_left f s, out ++ [option_map a_counts (augment f s)])
+  | ASet => (f, out ++ [option_map a_counts (augment f s)])
   end.
 Definition a_run (s f0 : aresp) (ops : list aop) : list (option (list Z)) :=
   snd (fold_left (astep s) ops (f0, [])).
+Definition a_run_state (s f0 : aresp) (ops : list aop) : aresp :=
+  fst (fold_left (astep s) ops (f0, [])).
 Definition a_run_pristine (s f0 : aresp) (ops : list aop) : list (option (list Z)) :=
   map (fun x => match snd (astep s (f0, []) x) with [k] => k | _ => None end) ops.
 
@@ -290,3 +307,4 @@ Definition ndims_of (l : list nat) : nat -> nat := fun i => nth i l 0%nat.
 Definition r_aresp (a : aresp) : list Z :=
   r_lst (fun z => [z]) (a_counts a) ++ r_lst (fun e => r_ident (fst e) ++ r_option r_ident (snd e)) (a_elems a).
 Definition r_zs (l : list Z) : list Z := r_lst (fun z => [z]) l.
+Definition r_shims (l : list (option xf)) : list Z := r_lst (r_option r_xf) l.
